@@ -1,5 +1,5 @@
 (* C16 property theorems.  Only statements closed by [exact]; each followed by Print Assumptions. *)
-From Miller Require Import Base.Record C16.Model C16.CivilProofs C16.TextProofs C16.Proofs C16.GmtProofs C16.DhmsProofs C16.ZoneProofs C16.Verb C16.VerbProofs C16.Datediff C16.DatediffProofs gen.Gen_Zones.
+From Miller Require Import Base.Record C16.Model C16.Format C16.CivilProofs C16.TextProofs C16.Proofs C16.FormatProofs C16.GmtProofs C16.DhmsProofs C16.ZoneProofs C16.LocalProofs C16.Verb C16.VerbProofs C16.Datediff C16.DatediffProofs gen.Gen_Zones.
 Open Scope Z_scope.
 
 (* calendar inverses, ALL integers / all valid dates of all years (proleptic Gregorian) *)
@@ -75,6 +75,97 @@ Print Assumptions C16_strptime_of_sec2gmt.
 Theorem C16_gmt2sec_sec2gmt : forall n, LO <= n <= HI -> gmt2sec_exact (sec2gmt_int n 0) = Some n.
 Proof. exact gmt2sec_exact_sec2gmt. Qed.
 Print Assumptions C16_gmt2sec_sec2gmt.
+
+(* ---- THE GENERAL FORMAT LAW.  Format language (Format.v): a literal prefix, then parts (code, literal after it) over the
+   numeric codes Y m d H M S j and the Miller fractional-seconds codes %1S..%9S (written as the digit), literals free of
+   '%' and not starting with a digit/'.'/',' , only the last literal may be empty; "determines" = has Y, H, M, S and
+   (m and d) or j; codes may repeat and come in any order.  For EVERY such format and EVERY instant of the years 1..9999
+   (with any nanoseconds) strftime succeeds and strptime maps its output back to the instant, truncated to the decimals of
+   the last seconds field.  The printing side has %<k>S where the parsing side has %S (pbnjay's strptime has no %<k>S:
+   see C16_format_law_refuted_for_epoch_seconds_and_fractional_codes). *)
+Theorem C16_format_law :
+  forall pre ps t ns, format_ok pre ps = true -> LO <= t <= HI -> 0 <= ns < 1000000000 ->
+  exists txt, strftime (pre ++ flat_print ps) t ns = Some txt /\
+              strp_exact txt (pre ++ flat_parse ps) = POk (t * 1000000000 + trunc_ns (last_frac ps 0) ns).
+Proof. exact format_law. Qed.
+Print Assumptions C16_format_law.
+
+(* the law in its literal form, one format text on both sides: strptime(strftime(t, f), f) = t *)
+Theorem C16_strptime_strftime_same_format :
+  forall pre ps t ns, format_ok pre ps = true -> frac_free ps = true -> LO <= t <= HI -> 0 <= ns < 1000000000 ->
+  let f := pre ++ flat_parse ps in
+  exists txt, strftime f t ns = Some txt /\ strp_exact txt f = POk (t * 1000000000).
+Proof. exact format_law_same_format. Qed.
+Print Assumptions C16_strptime_strftime_same_format.
+
+Example C16_format_law_hypotheses_satisfiable :
+  format_ok (B "at ") [("d"%char, B "/"); ("m"%char, B "/"); ("Y"%char, B " day "); ("j"%char, B " -- "); ("H"%char, B "h"); ("M"%char, B "m"); ("6"%char, B "s")] = true
+  /\ S_ (B "at " ++ flat_print [("d"%char, B "/"); ("m"%char, B "/"); ("Y"%char, B " day "); ("j"%char, B " -- "); ("H"%char, B "h"); ("M"%char, B "m"); ("6"%char, B "s")])
+     = "at %d/%m/%Y day %j -- %Hh%Mm%6Ss"%string
+  /\ format_ok [] LOCAL_PARTS = true /\ frac_free LOCAL_PARTS = true /\ flat_parse LOCAL_PARTS = LOCAL_FMT
+  /\ format_ok [] [("Y"%char, B "-"); ("m"%char, B "-"); ("d"%char, B " "); ("H"%char, B ":"); ("M"%char, B ":"); ("S"%char, B "")] = true
+  /\ format_ok [] [("Y"%char, B "-"); ("m"%char, B ""); ("d"%char, B " "); ("H"%char, B ":"); ("M"%char, B ":"); ("S"%char, B "")] = false.
+Proof. vm_compute. repeat split; reflexivity. Qed.
+
+(* FULL statement of the property's law -- "for every format that determines the instant" -- is FALSE for formats with
+   %s or %<k>S: strftime prints them, strptime answers ErrFormatUnsupported.  Known finding strptime-no-epoch-seconds-code. *)
+Theorem C16_format_law_refuted_for_epoch_seconds_and_fractional_codes :
+  (exists f t txt, LO <= t <= HI /\ strftime f t 0 = Some txt /\ strp_exact txt f = PErr)
+  /\ (forall txt, strp_exact txt (B "%s") = PErr) /\ (forall txt, strp_exact txt (B "%Y-%m-%d %H:%M:%6S") = PErr).
+Proof. exact (conj format_law_refuted_for_epoch_seconds strptime_rejects_epoch_seconds_and_fractional_codes). Qed.
+Print Assumptions C16_format_law_refuted_for_epoch_seconds_and_fractional_codes.
+
+(* sec2gmt / sec2localtime / nsec2gmt with k = 0..9 decimals print text that gmt2sec / localtime2sec / gmt2nsec parse back
+   to the instant truncated to k decimals: every instant of the years 1..9999, every nanosecond value *)
+Theorem C16_strptime_of_time_text_with_decimals :
+  forall loc t ns k, LO <= t <= HI -> 0 <= ns < 1000000000 -> (k <= 9)%nat ->
+  strp_exact (fmt_time loc t ns (Z.of_nat k)) (if loc then LOCAL_FMT else ISO_FMT) = POk (t * 1000000000 + trunc_ns k ns).
+Proof. exact strp_exact_fmt_time. Qed.
+Print Assumptions C16_strptime_of_time_text_with_decimals.
+
+Theorem C16_gmt2nsec_nsec2gmt :
+  forall t ns k, LO <= t <= HI -> 0 <= ns < 1000000000 -> (k <= 9)%nat -> MIN64 <= t * 1000000000 -> t * 1000000000 + ns <= MAX64 ->
+  gmt2nsec (nsec2gmt (t * 1000000000 + ns) (Z.of_nat k)) = POk (t * 1000000000 + trunc_ns k ns).
+Proof. exact gmt2nsec_nsec2gmt. Qed.
+Print Assumptions C16_gmt2nsec_nsec2gmt.
+
+(* ---- LOCAL TIME THROUGH THE TEXT: localtime2sec(sec2localtime(t, k, zone), zone) = t for any well-formed table at every
+   instant with an unambiguous wall-clock reading, k = 0..9 decimals *)
+Theorem C16_localtime2sec_sec2localtime :
+  forall z t ns k, wf_ztable z = true -> ALPHA + ZD <= t -> t <= OMEGA - ZD -> LO <= to_local z t <= HI ->
+  0 <= ns < 1000000000 -> (k <= 9)%nat -> unambiguous_at z t ->
+  localtime2sec z (fmt_time true (to_local z t) ns (Z.of_nat k)) = Some t.
+Proof. exact localtime2sec_sec2localtime. Qed.
+Print Assumptions C16_localtime2sec_sec2localtime.
+
+Theorem C16_localtime2sec_sec2localtime_gen_zones :
+  forall z t, In z gen_zones -> ALPHA + ZD <= t -> t <= OMEGA - ZD -> LO <= to_local z t <= HI -> unambiguous_at z t ->
+  localtime2sec z (sec2localtime_int z t 0) = Some t.
+Proof. exact (fun z t Hin => localtime2sec_sec2localtime_int z t (proj1 (forallb_forall _ _) gen_zones_wf z Hin)). Qed.
+Print Assumptions C16_localtime2sec_sec2localtime_gen_zones.
+
+Theorem C16_localtime2gmt_sec2localtime :
+  forall z t, wf_ztable z = true -> ALPHA + ZD <= t -> t <= OMEGA - ZD -> LO <= to_local z t <= HI -> unambiguous_at z t ->
+  localtime2gmt z (sec2localtime_int z t 0) = Some (sec2gmt_int t 0).
+Proof. exact localtime2gmt_sec2localtime. Qed.
+Print Assumptions C16_localtime2gmt_sec2localtime.
+
+Theorem C16_gmt2localtime_sec2gmt :
+  forall z t, LO <= t <= HI -> gmt2localtime z (sec2gmt_int t 0) = Some (sec2localtime_int z t 0).
+Proof. exact gmt2localtime_sec2gmt. Qed.
+Print Assumptions C16_gmt2localtime_sec2gmt.
+
+(* every overlap and gap of every regenerated zone table (bound: the transitions of gen_zones, window 1900..2037; four
+   readings per transition: first, second, middle, last): in an overlap localtime2sec returns a genuine preimage, the one
+   under the offset in force at "reading taken as UTC"; in a gap the reading shifted by the size of the gap *)
+Theorem C16_overlaps_and_gaps_gen_zones : forallb zone_transitions_ok gen_zones = true.
+Proof. exact gen_zones_transitions_ok. Qed.
+Print Assumptions C16_overlaps_and_gaps_gen_zones.
+
+Theorem C16_overlaps_and_gaps_text_gen_zones :
+  forallb (fun z => transitions_text_ok z (z_base z) (z_trans z)) gen_zones = true.
+Proof. exact gen_zones_transitions_text_ok. Qed.
+Print Assumptions C16_overlaps_and_gaps_text_gen_zones.
 
 (* gmt2nsec returns int64 nanoseconds: exact whenever n * 10^9 fits in int64 (1677-09-21 .. 2262-04-11) *)
 Theorem C16_gmt2nsec_sec2gmt :
